@@ -201,8 +201,14 @@ func propC19(r *kernel.Run) {
 	st := newBackend(r, backend, "kv")
 	storeOnce := backend == "storeonce"
 	uniq := 0
+	ids := kvIDs
+	if backend != "file" {
+		// for the in-memory back ends an ID is an opaque key: IDs that merely look like paths must stay apart
+		// (not used on the file back end, where an ID is a file name)
+		ids = append(append([]string{}, kvIDs...), "a/", "./a", "a/../b", "..", "a//b", "b/.")
+	}
 	draw := func() kvIn {
-		in := kvIn{Type: kvTypes[tp.Draw(4)], ID: kvIDs[tp.Draw(len(kvIDs))]}
+		in := kvIn{Type: kvTypes[tp.Draw(4)], ID: ids[tp.Draw(len(ids))]}
 		switch k := tp.Draw(10); {
 		case k < 4:
 			in.Op = "store"
@@ -287,7 +293,10 @@ func propC19(r *kernel.Run) {
 		for i := 0; i < perClient; i++ {
 			in := draw()
 			// a small key space makes operations collide
-			in.ID = kvIDs[tp.Draw(2)]
+			in.ID = ids[tp.Draw(2)]
+			if tp.Draw(6) == 0 {
+				in.ID = ids[tp.Draw(len(ids))]
+			}
 			if in.Op == "list" {
 				in.ID = ""
 			}
